@@ -27,6 +27,7 @@ CHANNEL = [
     ("SenderReconnectStrandsPending", "three-two-nocrash", ("NoResidue", "NoStrandedCall")),
     ("FailedReconnectNilStream", "two-two-b0-noclose", ("NoPanic",)),
     ("EnqueueBlocksOnOwnReplyChannel", "stream-foreign", ("CtxPrompt", "NoStrandedCall")),
+    ("StreamDiesUnseen", "two-two-b0-noclose", ("NoStrandedCall", "NoResidue")),
 ]
 RE_VIOL = re.compile(r"Invariant (\w+) is violated")
 RE_DEPTH = re.compile(r"^State (\d+):", re.M)
